@@ -313,7 +313,7 @@ func ruleC18Pool(c *Ctx, r *Result) {
 					}
 				}
 			}
-			var releases, escapes []ssa.Instruction
+			var releases, escapes, uses []ssa.Instruction
 			deferred := false
 			escWhy := map[ssa.Instruction]string{}
 			for v := range alias {
@@ -351,6 +351,9 @@ func ruleC18Pool(c *Ctx, r *Result) {
 						escWhy[ref] = "sent on a channel"
 					case *ssa.Convert:
 						// string(buf) copies
+						uses = append(uses, x)
+					case *ssa.IndexAddr, *ssa.Index, *ssa.Slice, *ssa.Lookup:
+						uses = append(uses, ref)
 					}
 				}
 			}
@@ -372,6 +375,19 @@ func ruleC18Pool(c *Ctx, r *Result) {
 					} else if canReachAvoiding(rl, e, g) {
 						bad = "released at " + c.InstrPos(rl) + " and then " + escWhy[e] + " at " + c.InstrPos(e)
 					}
+				}
+			}
+			if bad == "" && !deferred {
+				for _, u := range uses {
+					for _, rl := range releases {
+						if canReachAvoiding(rl, u, g) {
+							bad = "released at " + c.InstrPos(rl) + " and still read at " + c.InstrPos(u)
+						}
+					}
+				}
+				if bad != "" {
+					r.Viol("C18.1", construct+"#used-after-release", pos, "pooled buffer "+bad+": another goroutine may already have received it from the pool")
+					continue
 				}
 			}
 			if bad == "" {
@@ -609,6 +625,8 @@ func ruleC18Lifecycle(c *Ctx, r *Result) {
 					return false
 				})
 				r.Check(signalled, "C18.6", c.Name(fn)+"#signals-stop-before-waiting", c.InstrPos(wait), "the stop function signals the goroutine before it waits for "+sigField)
+				// (f) whatever the stop function decides from guarded state about stopping further workers must be read after the join
+				c.checkDecisionAfterJoin(r, fn, wait)
 				// (e) the signal cannot be sent twice: the running/started flag is cleared under the same lock that tested it
 				c.checkSingleSignal(r, fn, wait)
 			}
@@ -677,4 +695,68 @@ func (c *Ctx) checkSingleSignal(r *Result, fn *ssa.Function, wait ssa.Instructio
 		}
 	})
 	r.Check(cleared, "C18.6", c.Name(fn)+"#single-stop-signal", c.InstrPos(testIn), "the flag "+tested+" tested under the lock is cleared before the lock is released, so a second concurrent stop cannot signal again")
+}
+
+// checkDecisionAfterJoin: in a stop function, a branch that guards a call which stops further background work
+// (a method whose name starts with Stop) and tests a guarded field must read that field after the wait for the
+// goroutine: a value read before the join can be made stale by the goroutine's last iteration.
+func (c *Ctx) checkDecisionAfterJoin(r *Result, fn *ssa.Function, wait ssa.Instruction) {
+	for _, b := range fn.Blocks {
+		ifi, ok := b.Instrs[len(b.Instrs)-1].(*ssa.If)
+		if !ok {
+			continue
+		}
+		// does the true arm call a Stop* method?
+		stops := false
+		for blk := range reachableFrom(b.Succs[0], map[*ssa.BasicBlock]bool{b.Succs[1]: true}) {
+			for _, in := range blk.Instrs {
+				if call, ok := in.(*ssa.Call); ok {
+					n := ""
+					if call.Call.IsInvoke() {
+						n = call.Call.Method.Name()
+					} else if f := call.Call.StaticCallee(); f != nil {
+						n = f.Name()
+					}
+					if strings.HasPrefix(n, "Stop") {
+						stops = true
+					}
+				}
+			}
+		}
+		if !stops {
+			continue
+		}
+		bo, ok := ifi.Cond.(*ssa.BinOp)
+		if !ok {
+			continue
+		}
+		for _, op := range []ssa.Value{bo.X, bo.Y} {
+			// follow phis / locals back to field loads
+			var loads []ssa.Instruction
+			seen := map[ssa.Value]bool{}
+			var walk func(v ssa.Value)
+			walk = func(v ssa.Value) {
+				if seen[v] {
+					return
+				}
+				seen[v] = true
+				switch x := v.(type) {
+				case *ssa.UnOp:
+					if k, _ := fieldLoadKey(x); k != "" && guarded(k) {
+						loads = append(loads, x)
+					}
+				case *ssa.Phi:
+					for _, e := range x.Edges {
+						walk(e)
+					}
+				}
+			}
+			walk(op)
+			for _, ld := range loads {
+				afterJoin := mustPrecede(ld, func(in ssa.Instruction) bool { return in == wait })
+				k, _ := fieldLoadKey(ld.(ssa.Value))
+				r.Check(afterJoin, "C18.6", c.Name(fn)+"#"+k+"#decision-read-after-join", c.InstrPos(ld), "the state that decides whether further background work is stopped is read after the goroutine has been joined")
+			}
+		}
+	}
 }
